@@ -8,6 +8,7 @@ unset GOSUMDB GOTOOLCHAIN
 if grep -rnE 'Admitted|admit\.|\bAxiom\b|\bParameter\b|\bConjecture\b|Unset Guard|bypass_check|type-in-type|impredicative-set' coq --include=*.v; then
   echo "forbidden token in the Coq development"; exit 1
 fi
+python3 -c "import sys; sys.path.insert(0,'pygen'); import common; common.write_coqproject()"
 (cd coq && rm -f Makefile Makefile.conf && coq_makefile -f _CoqProject -o Makefile >/dev/null && timeout 3000 make -j16 2>&1 | tail -5)
 mkdir -p _work/bin gen evidence replays
 cp /repo/go.sum harness/go.sum
